@@ -45,24 +45,24 @@ def tables():
     return values, excs, escapes
 
 
-def drive(script):
-    """script: list of (sid, kind, idx), kind 0 returns / 1 raises / 2 escapes.
-    Returns (canonical list, details for the oracle)."""
+def drive_session(scripts):
+    """scripts: list of scripts, each a list of (sid, kind, idx), kind 0 returns / 1 raises / 2 escapes.
+    ONE strategy object; authenticate() is called once per script, in order.
+    Returns [(canonical list, details for the oracle)] per call."""
     from paramiko.auth_strategy import AuthStrategy, AuthSource, AuthResult, AuthFailure, SourceResult
     from paramiko.config import SSHConfig
     values, excs, escapes = tables()
-    trace = []
-    made = []
+    state = {"trace": None, "made": None, "script": None}
 
     class ScriptedSource(AuthSource):
-        def __init__(self, sid, kind, idx):
+        def __init__(self, sid, kind, idx, trace):
             super().__init__(username="user")
-            self.sid, self.kind, self.idx = sid, kind, idx
+            self.sid, self.kind, self.idx, self.trace = sid, kind, idx, trace
             self.produced = None
             self.seen_transport = None
 
         def authenticate(self, transport):
-            trace.extend([2, self.sid])
+            self.trace.extend([2, self.sid])
             self.seen_transport = transport
             if self.kind == 0:
                 self.produced = values[self.idx]()
@@ -72,48 +72,62 @@ def drive(script):
 
     class Scripted(AuthStrategy):
         def get_sources(self):
-            for sid, kind, idx in script:
-                src = ScriptedSource(sid, kind, idx)
+            trace, made = state["trace"], state["made"]
+            for sid, kind, idx in state["script"]:
+                src = ScriptedSource(sid, kind, idx, trace)
                 made.append(src)
                 trace.extend([1, sid])
                 yield src
 
     strat = Scripted(ssh_config=SSHConfig())
-    transport = object()
-    info = {"made": made, "strategy": strat, "transport": transport, "trace": trace}
-    try:
-        res = strat.authenticate(transport)
-        info["final"], info["result"] = "return", res
-    except AuthFailure as e:
-        info["final"], info["exc"], info["result"] = "authfailure", e, getattr(e, "result", None)
-    except BaseException as e:      # noqa - observing what escapes is the point
-        info["final"], info["exc"], info["result"] = "propagated", e, None
-    info["AuthResult"], info["SourceResult"], info["AuthFailure"] = AuthResult, SourceResult, AuthFailure
+    out = []
+    for script in scripts:
+        trace, made = [], []
+        state.update(trace=trace, made=made, script=script)
+        transport = object()
+        info = {"made": made, "strategy": strat, "transport": transport, "trace": trace}
+        res = None
+        try:
+            res = strat.authenticate(transport)
+            info["final"], info["result"] = "return", res
+        except AuthFailure as e:
+            info["final"], info["exc"], info["result"] = "authfailure", e, getattr(e, "result", None)
+        except BaseException as e:      # noqa - observing what escapes is the point
+            info["final"], info["exc"], info["result"] = "propagated", e, None
+        info["AuthResult"], info["SourceResult"], info["AuthFailure"] = AuthResult, SourceResult, AuthFailure
 
-    def canon_results(res):
-        out = []
-        for x in res:
-            src = x.source
-            out += [getattr(src, "sid", -99), getattr(src, "kind", -99), getattr(src, "idx", -99)]
-        return out
+        def canon_results(r):
+            o = []
+            for x in r:
+                src = x.source
+                o += [getattr(src, "sid", -99), getattr(src, "kind", -99), getattr(src, "idx", -99)]
+            return o
 
-    if info["final"] == "return":
-        canon = [0] + canon_results(res)
-    elif info["final"] == "authfailure":
-        canon = [1] + (canon_results(info["result"]) if info["result"] is not None else [-98])
-    else:
-        e = info["exc"]
-        idx = -97
-        for s in made:
-            if s.produced is e and s.kind == 2:
-                idx = s.idx
-        canon = [2, idx]
-    return canon + [-1] + trace, info
+        if info["final"] == "return":
+            canon = [0] + canon_results(res)
+        elif info["final"] == "authfailure":
+            canon = [1] + (canon_results(info["result"]) if info["result"] is not None else [-98])
+        else:
+            e = info["exc"]
+            idx = -97
+            for src in made:
+                if src.produced is e and src.kind == 2:
+                    idx = src.idx
+            canon = [2, idx]
+        out.append((canon + [-1] + trace, info))
+    return out
 
 
-def oracle(ctx, script, info):
-    """The property, stated on the real objects."""
-    case = {"script": [list(x) for x in script]}
+def drive(script):
+    return drive_session([script])[0]
+
+
+def oracle(ctx, script, info, history=()):
+    """The property, stated on the real objects.  history = the scripts already run on the same strategy
+    object before this call (the property holds for every call, whatever happened before)."""
+    case = {"session": [[list(x) for x in h] for h in history] + [[list(x) for x in script]]}
+    if history:
+        case["note"] = "authenticate() call number %d on the same AuthStrategy object" % (len(history) + 1)
     made, trace = info["made"], info["trace"]
     first = next((i for i, (_, k, _) in enumerate(script) if k != 1), None)
     attempted = len(script) if first is None else first + 1
@@ -170,7 +184,9 @@ def run(ctx):
     ctx.rule = ("exhaustive: every succeed/raise pattern of 0..8 sources (511 scripts; return values and "
                 "exception classes assigned by a fixed rotation over %d values / %d Exception classes); plus "
                 "seeded random scripts of 0..14 sources with uncaught BaseExceptions (%d kinds), repeated source "
-                "ids and random values. Non-trivial = distinct script with at least one source"
+                "ids and random values; plus sessions of 2..4 authenticate() calls on ONE strategy object (all "
+                "ordered pairs of 10 representative scripts + random sessions), every call checked. "
+                "Non-trivial = distinct script with at least one source"
                 % (len(values), len(excs), len(escapes)))
     ctx.trusted += ["model coq/Model/C44.v is hand-written; tied to AuthStrategy.authenticate by this run",
                     "exceptions raised inside get_sources() itself, and logging, are not modelled"]
@@ -209,6 +225,32 @@ def run(ctx):
             else:
                 script.append((sid, 1, rng.randrange(len(excs))))
         one(script, "random")
+
+    # ---- several authenticate() calls on ONE strategy object -------------------------
+    def session(scripts, kind):
+        res = drive_session(scripts)
+        for i, (canon, info) in enumerate(res):
+            oracle(ctx, scripts[i], info, history=scripts[:i])
+            cases.append((scripts[i], canon))
+            ctx.count(("session", tuple(map(tuple, scripts[:i + 1]))), nontrivial=len(scripts[i]) > 0,
+                      kind=kind + ("-first" if i == 0 else "-later"))
+
+    rep = [[], [(1, 0, 0)], [(1, 1, 0)], [(1, 1, 5), (2, 1, 1)], [(1, 1, 2), (2, 0, 1), (3, 1, 0)],
+           [(1, 0, 2), (2, 1, 0)], [(1, 1, 0), (2, 1, 3), (3, 0, 4)], [(1, 2, 0)], [(1, 1, 1), (2, 2, 1), (3, 0, 0)],
+           [(1, 1, 4), (2, 1, 6), (3, 1, 9)]]
+    for a in rep:
+        for b in rep:
+            session([a, b], "session-pair")
+    for _ in range(60 * scale):
+        scripts = []
+        for _k in range(rng.randrange(2, 5)):
+            sc = []
+            for pos in range(rng.randrange(0, 5)):
+                u = rng.random()
+                sc.append((pos, 0, rng.randrange(len(values))) if u < 0.25 else
+                          (pos, 2, rng.randrange(len(escapes))) if u < 0.32 else (pos, 1, rng.randrange(len(excs))))
+            scripts.append(sc)
+        session(scripts, "session-random")
     bad = ctx.model_mismatches("run_auth", "(list source)", [(coq_script(s), c) for s, c in cases])
     for i in bad[:3]:
         ctx.disagree("AuthStrategy.authenticate differs from the model", case={"script": [list(x) for x in cases[i][0]]},
@@ -219,8 +261,10 @@ def run(ctx):
 
 
 def replay(ctx, rep):
-    script = [tuple(x) for x in rep["case"]["script"]]
-    canon, info = drive(script)
-    ctx.count(("replay", script))
-    ctx.count(("replay2", script))
-    oracle(ctx, script, info)
+    case = rep["case"]
+    scripts = [[tuple(x) for x in sc] for sc in (case["session"] if "session" in case else [case["script"]])]
+    res = drive_session(scripts)
+    ctx.count(("replay", repr(scripts)))
+    ctx.count(("replay2", repr(scripts)))
+    for i, (canon, info) in enumerate(res):
+        oracle(ctx, scripts[i], info, history=scripts[:i])
